@@ -30,10 +30,33 @@ def verifyMap : VerifyMap := Gen.c20VerifyFuncMap.map fun p => (p.1, verifyOfNam
 
 /-! ### reading the input -/
 
+/-- `(i N)`, `(s TEXT)`, `null`, `(uv NAME)` @NAME, `(sv NAME)` @@NAME, `(ssv NAME)` @@SESSION.NAME,
+    `(gv NAME)` @@GLOBAL.NAME, `(cat E E)` CONCAT(E, E), `(add E E)` E + E. -/
+partial def exprOf : Sexp → Option Expr
+  | .list [.atom "i", n] => n.asInt?.map Expr.int
+  | .list [.atom "s", s] => s.asText?.map Expr.str
+  | .atom "null" => some .null
+  | .list [.atom "uv", n] => n.asText?.map Expr.uvar
+  | .list [.atom "sv", n] => n.asText?.map (Expr.svar false)
+  | .list [.atom "ssv", n] => n.asText?.map (Expr.svar true)
+  | .list [.atom "gv", n] => n.asText?.map Expr.gvar
+  | .list [.atom "cat", a, b] => do some (.cat (← exprOf a) (← exprOf b))
+  | .list [.atom "add", a, b] => do some (.add (← exprOf a) (← exprOf b))
+  | _ => none
+
+/-- `(e EXPR)` is a value with a function call, a variable or an operator on
+    top; an `EXPR` that is a plain literal is the literal. -/
 def litOf : Sexp → Option Lit
   | .list [.atom "i", n] => n.asInt?.map Lit.int
   | .list [.atom "w", w] => w.asText?.map Lit.word
   | .list [.atom "s", s] => s.asText?.map Lit.str
+  | .list [.atom "e", e] =>
+    match exprOf e with
+    | some (.int i) => some (.int i)
+    | some (.str t) => some (.str t)
+    | some .null => some (.word "NULL")
+    | some x => some (.expr x)
+    | none => none
   | _ => none
 
 def assignOf : Sexp → Option Assign
@@ -82,9 +105,13 @@ structure Input where
   slots : List Slot
   ops : List Op
 
+/-- The global variables of every scripted backend (harness/props/c20.go: c20Globals). -/
+def serverGlobals : AMap String :=
+  [("sql_mode", "'ONLY_FULL_GROUP_BY'"), ("max_connections", "151"), ("foo_str", "'gdef'"), ("foo_int", "3"), ("foo_ref", "9")]
+
 def freshSlot (cs : String) (coll : Nat) (coll247 v803 : Bool) : Slot :=
   { conn := Conn.new cs coll coll247 v803
-    be := { charset := cs, collation := (tables.collationName coll).getD "" } }
+    be := { charset := cs, collation := (tables.collationName coll).getD "", globals := serverGlobals } }
 
 def inputOf : Sexp → Option Input
   | .list [.atom "c20",
@@ -136,16 +163,19 @@ def fmtConn (c : Conn) : String :=
     "(" ++ fmtVars c.sv.variables ++ ")",
     "(" ++ " ".intercalate ((sortByKey c.sv.unused).map fun p => textToHex p.1) ++ ")"]
 
-/-- Split at commas outside single quotes. -/
+/-- Split at commas outside single quotes and parentheses. -/
 def splitTop (cs : List Char) : List String :=
-  let rec go (cs : List Char) (inq : Bool) (cur : List Char) (acc : List String) : List String :=
+  let rec go (cs : List Char) (inq : Bool) (depth : Nat) (cur : List Char) (acc : List String) : List String :=
     match cs with
     | [] => (String.ofList cur.reverse :: acc).reverse
     | c :: rest =>
-      if c == '\'' then go rest (!inq) (c :: cur) acc
-      else if c == ',' && !inq then go rest inq [] (String.ofList cur.reverse :: acc)
-      else go rest inq (c :: cur) acc
-  go cs false [] []
+      if c == '\'' then go rest (!inq) depth (c :: cur) acc
+      else if inq then go rest inq depth (c :: cur) acc
+      else if c == '(' then go rest inq (depth + 1) (c :: cur) acc
+      else if c == ')' then go rest inq (depth - 1) (c :: cur) acc
+      else if c == ',' && depth == 0 then go rest inq depth [] (String.ofList cur.reverse :: acc)
+      else go rest inq depth (c :: cur) acc
+  go cs false 0 [] []
 
 /-- The statement with its assignments (all elements after the first) sorted. -/
 def canonicalStmt (s : String) : String :=
@@ -183,7 +213,7 @@ def stepOut (cfg : Cfg) (fresh : Fresh) (s : Sys) (op : Op) : Sys × String :=
   | .run c k f, .run res _ =>
     match s.clients[c]?, s.slots[k]? with
     | some cl, some sl =>
-      let i := initializeSessionVariables cfg.tables cfg.verifyMap sl cl f
+      let i := initializeSessionVariables cfg.tables sl cl f
       (r.1, paren ["run", fmtInitRes res, fmtStmt (initStmt res), fmtBackend i.1.be, fmtClient i.2.1, fmtConn i.1.conn])
     | _, _ => (r.1, "bad")
   | .sync c k f, .sync res =>
@@ -231,100 +261,120 @@ def backendOf : Sexp → Option Backend
     some { charset := (← cs.asText?), collation := (← coll.asText?), vars := vars }
   | _ => none
 
-/-- The variables a backend session of a server with flag `v803` must hold for
-    the settings `vars`, sorted (absent = default). -/
-def expectedVars (v803 : Bool) (vars : AMap Val) : AMap String :=
-  sortByKey ((sortByKey vars).foldl
-    (fun m p => if isReset p.1 (valueText p.1 p.2) then m else AMap.put m (wireKey v803 p.1) (valueText p.1 p.2)) [])
+/-- The text a backend is sent for the recorded value `v` of `k`. -/
+def sentText (k : String) (v : Val) : String := valueText k v
 
-/-- First difference between what the backend holds and what it must hold. -/
-def compareBackend (c : Conn) (b : Backend) (cl : Client) : Option String :=
-  let cs := trimSet ['"', '\'', '`'] cl.charset
-  if b.charset != cs then some "charset-mismatch"
-  else if tables.collationName (effectiveCollation tables c.coll247 cs cl.collation) != some b.collation then some "collation-mismatch"
-  else
-    let vars := cl.vars.variables
-    -- the two spellings of one server variable in one statement: order unspecified
-    let vars := if c.v803 && AMap.has vars "tx_read_only" && AMap.has vars "transaction_read_only" then
-      AMap.del (AMap.del vars "tx_read_only") "transaction_read_only" else vars
-    let bvars := if c.v803 && AMap.has cl.vars.variables "tx_read_only" && AMap.has cl.vars.variables "transaction_read_only" then
-      AMap.del b.vars "transaction_read_only" else b.vars
-    let want := expectedVars c.v803 vars
-    let have_ := sortByKey bvars
-    if have_ == want then none
-    else if have_.any (fun p => !(AMap.has want p.1)) then some "leaked-variable"
-    else some "stale-variable"
+/-- A client's own session as MySQL would keep it if the client were connected
+    to it alone: the recorded variable `k` ↦ the value its assignment had when the
+    client sent the SET statement. -/
+abbrev Virt := AMap String
 
-/-- Apply to `acked` what a SET statement changed in the proxy's record. -/
-def applyDelta (acked before after : Client) : Client :=
-  let keys := (before.vars.variables.map (·.1)) ++ (after.vars.variables.map (·.1))
-  let vars := keys.foldl (fun m k =>
+/-- Follow a SET statement of the client: every variable whose record changed
+    gets the value of its new text, evaluated in the client's own session as it
+    was before the statement. -/
+def virtAfterSet (virt : Virt) (before after : Client) : Virt :=
+  let keys := (sortByKey (before.vars.variables ++ after.vars.variables)).map (·.1)
+  keys.foldl (fun m k =>
     if AMap.get before.vars.variables k == AMap.get after.vars.variables k then m
     else match AMap.get after.vars.variables k with
-      | some v => AMap.put m k v
-      | none => AMap.del m k) acked.vars.variables
-  { charset := if before.charset == after.charset then acked.charset else after.charset
-    collation := if before.collation == after.collation then acked.collation else after.collation
-    vars := { variables := vars } }
+      | some v =>
+        let val := evalText serverGlobals virt (sentText k v)
+        if isReset k val then AMap.del m k else AMap.put m k val
+      | none => AMap.del m k) virt
 
-/-- Is the difference between the acknowledged settings and the proxy's record
-    exactly what `Reset` forgets after a failed SET statement (variables
-    without a verify function, `sql_mode`)? -/
-def explainedByReset (acked actual : Client) : Bool :=
-  acked.charset == actual.charset && acked.collation == actual.collation &&
-  (sortByKey actual.vars.variables).all (fun p => AMap.get acked.vars.variables p.1 == some p.2) &&
-  (sortByKey acked.vars.variables).all (fun p =>
-    AMap.get actual.vars.variables p.1 == some p.2 ||
-    (!(AMap.has actual.vars.variables p.1) && (!(AMap.has verifyMap p.1) || p.1 == "sql_mode")))
+/-- What a backend session (flag `v803`) must hold for the record `vars` of a
+    client whose own session is `virt`, sorted; when both spellings of
+    `transaction_read_only` are recorded the one of the backend's name counts. -/
+def expectedVars (v803 : Bool) (vars : AMap Val) (virt : Virt) : AMap String :=
+  sortByKey ((sortByKey (sentVars v803 vars)).foldl
+    (fun m p => match AMap.get virt p.1 with
+      | some val => AMap.put m (wireKey v803 p.1) val
+      | none => m) [])
+
+/-- The backend names whose recorded value reads the session. -/
+def sessionDependent (v803 : Bool) (vars : AMap Val) : List String :=
+  ((sentVars v803 vars).filter (fun p => !(sessionFreeB (sentText (wireKey v803 p.1) p.2)))).map (fun p => wireKey v803 p.1)
+
+inductive Cmp where
+  | same
+  | onlySessionDependent      -- differs only in variables whose value reads the session (listed finding)
+  | viol (cls : String)
+
+def compareBackend (c : Conn) (b : Backend) (cl : Client) (virt : Virt) : Cmp :=
+  let cs := trimSet ['"', '\'', '`'] cl.charset
+  if b.charset != cs then .viol "charset-mismatch"
+  else if tables.collationName (effectiveCollation tables c.coll247 cs cl.collation) != some b.collation then .viol "collation-mismatch"
+  else
+    let want := expectedVars c.v803 cl.vars.variables virt
+    let have_ := sortByKey b.vars
+    if have_ == want then .same
+    else
+      let dep := sessionDependent c.v803 cl.vars.variables
+      let differs := fun (k : String) => AMap.get have_ k != AMap.get want k
+      let keys := (have_ ++ want).map (·.1)
+      if keys.all (fun k => !(differs k) || dep.contains k) then .onlySessionDependent
+      else if have_.any (fun p => !(AMap.has want p.1) && !(dep.contains p.1)) then .viol "leaked-variable"
+      else .viol "stale-variable"
 
 def sameSettings (a b : Client) : Bool :=
   a.charset == b.charset && a.collation == b.collation && sortByKey a.vars.variables == sortByKey b.vars.variables
 
-structure OState where
-  actual : List Client
-  acked : List Client
+structure OClient where
+  cur : Client          -- the proxy's record as last shown
+  virt : Virt           -- the client's own session
+  ackRec : Client       -- record and own session when its last statement executed
+  ackVirt : Virt
 
 /-- The property on an observed history: every statement that executed did so
-    on a backend session that carries exactly the executing client's settings —
-    the proxy's record of them, and what the client was told it had set. -/
+    on a backend session that carries exactly the executing client's settings
+    (charset, collation, each variable with the value it had when the client
+    set it, nothing else); a successful preparation leaves the client's record
+    alone; after a rejected SET statement the record is back to the variables
+    of the client's last executed statement. -/
 def oracle (inp : Input) (out : Sexp) : String :=
   match out with
   | .atom "panic" => "ok"
   | .list outs =>
     if outs.length != inp.ops.length then "viol unparsable-output" else
-    -- `forgot`: a statement ran without variables `Reset` had dropped (the listed finding);
-    -- the walk goes on, so that any other violation later in the history is what gets reported
-    let rec go (st : OState) (forgot : Bool) (ops : List Op) (outs : List Sexp) : String :=
-      let done := if forgot then "viol failed-set-forgets-variables" else "ok"
+    -- `dep`: a statement ran with a variable whose value reads the session and is not what it was in the
+    -- client's own session (the listed finding); the walk goes on, so that any other violation later in the
+    -- history is what gets reported
+    let rec go (st : List OClient) (dep : Bool) (ops : List Op) (outs : List Sexp) : String :=
+      let done := if dep then "viol set-expression-reads-session-state" else "ok"
       match ops, outs with
       | [], _ => done
       | _, [] => done
       | op :: ops', o :: outs' =>
         match op, o with
         | .set c _, .list [.atom "set", _, cli] =>
-          match clientOf cli, st.actual[c]?, st.acked[c]? with
-          | some new, some before, some acked =>
-            go { actual := st.actual.set c new, acked := st.acked.set c (applyDelta acked before new) } forgot ops' outs'
-          | _, _, _ => "viol unparsable-output"
+          match clientOf cli, st[c]? with
+          | some new, some oc =>
+            go (st.set c { oc with cur := new, virt := virtAfterSet oc.virt oc.cur new }) dep ops' outs'
+          | _, _ => "viol unparsable-output"
         | .run c k _, .list [.atom "run", .atom res, _, be, cli, _] =>
-          match clientOf cli, backendOf be, st.acked[c]?, inp.slots[k]? with
-          | some new, some b, some acked, some sl =>
-            let st' := { st with actual := st.actual.set c new }
+          match clientOf cli, backendOf be, st[c]?, inp.slots[k]? with
+          | some new, some b, some oc, some sl =>
             if res == "ok" then
-              match compareBackend sl.conn b new with
-              | some cls => "viol " ++ cls
-              | none =>
-                if sameSettings acked new then go st' forgot ops' outs'
-                else if explainedByReset acked new then
-                  -- from here on the client is taken to know what it lost
-                  go { st' with acked := st'.acked.set c new } true ops' outs'
-                else "viol client-record-changed"
-            else go st' forgot ops' outs'
+              if !(sameSettings oc.cur new) then "viol client-record-changed"
+              else
+                let st' := st.set c { oc with cur := new, ackRec := new, ackVirt := oc.virt }
+                match compareBackend sl.conn b new oc.virt with
+                | .viol cls => "viol " ++ cls
+                | .same => go st' dep ops' outs'
+                | .onlySessionDependent => go st' true ops' outs'
+            else if res == "err-set" then
+              if new.charset == oc.cur.charset && new.collation == oc.cur.collation &&
+                  sortByKey new.vars.variables == sortByKey oc.ackRec.vars.variables then
+                go (st.set c { oc with cur := new, virt := oc.ackVirt }) dep ops' outs'
+              else "viol failed-set-record-not-restored"
+            else if res == "err-charset" then
+              if sameSettings oc.cur new then go st dep ops' outs' else "viol client-record-changed"
+            else go (st.set c { oc with cur := new }) dep ops' outs'
           | _, _, _, _ => "viol unparsable-output"
-        | .sync _ _ _, .list (.atom "sync" :: _) => go st forgot ops' outs'
-        | _, .atom "bad" => go st forgot ops' outs'
+        | .sync _ _ _, .list (.atom "sync" :: _) => go st dep ops' outs'
+        | _, .atom "bad" => go st dep ops' outs'
         | _, _ => "viol unparsable-output"
-    go { actual := inp.clients, acked := inp.clients } false inp.ops outs
+    go (inp.clients.map fun cl => { cur := cl, virt := [], ackRec := cl, ackVirt := [] }) false inp.ops outs
   | _ => "viol unparsable-output"
 
 def handle (args : List Sexp) : String :=
